@@ -70,6 +70,9 @@ def generate(seed, tier):
     if sw.chance(.35):
         from ..world import add_named_block
         add_named_block(Rng(seed, 'namedblock'), world)
+    if sw.chance(.35):
+        from ..world import add_sparse_range
+        add_sparse_range(Rng(seed, 'sparse'), world, undefined=sw.chance(.4))
     srng = Rng(seed, 'sched')
     kind = srng.weighted([('dict', 3), ('file', 2)])
     pl = identity_placement(world) if srng.chance(.4) else gen_placement(
